@@ -14,6 +14,7 @@ type Action struct {
 	Delay2 time.Duration // second reaction of twice/unknown_id/stale_id
 	Status uint32        // protocol status of the reply (0 = protocol's success)
 	Err    bool          // reply with a non-success status
+	Junk   []byte        // garbage_reply: the bytes to send
 }
 
 // UpRec is one attempt as seen by an upstream actor.
@@ -201,12 +202,13 @@ func (x *XClient) Leave(reset bool) {
 // ---------- scripted upstream ----------
 
 type XUpstream struct {
-	S     *sim.Sim
-	H     *History
-	Codec XCodec
-	Host  string
-	Conn  *sim.Conn
-	buf   []byte
+	Tainted bool // sent deliberately malformed bytes: its view of "exchange completed" means nothing
+	S       *sim.Sim
+	H       *History
+	Codec   XCodec
+	Host    string
+	Conn    *sim.Conn
+	buf     []byte
 	// ReplyBuilder makes the success/err reply frame for an attempt.
 	ReplyBuilder func(u *XUpstream, r *ReqRec, up *UpRec) *XFrame
 	ParseErr     error
@@ -230,7 +232,8 @@ func (u *XUpstream) OnData(c *sim.Conn, b []byte) {
 		n, err := u.Codec.Split(u.buf)
 		if err != nil {
 			u.ParseErr = err
-			u.S.Logf("upstream %s c%d parse error %v", u.Host, c.ID, err)
+			u.S.Logf("upstream %s c%d parse error %v: closes the connection", u.Host, c.ID, err)
+			c.PeerClose() // what a real server does with a protocol error
 			return
 		}
 		if n == 0 {
@@ -260,6 +263,10 @@ func (u *XUpstream) OnData(c *sim.Conn, b []byte) {
 		if r == nil {
 			u.Unknown = append(u.Unknown, fr)
 			u.S.Logf("upstream %s c%d got request with unknown token %q", u.Host, c.ID, tok)
+			if !f.Oneway && !u.Wedged {
+				// answer like any server would, so that the exchange ends
+				c.Send(u.Codec.Build(&XFrame{IsReq: false, ID: f.ID, Status: u.Codec.SuccessStatus(), Class: "com.verif.Unknown"}))
+			}
 			continue
 		}
 		att := len(r.Upstream)
@@ -356,6 +363,22 @@ func (u *XUpstream) react(c *sim.Conn, r *ReqRec, up *UpRec) {
 		})
 	case "reply_close":
 		u.S.After(a.Delay, lab, func() { u.send(c, up, mk()); finish(); c.PeerClose() })
+	case "garbage_reply", "corrupt_reply":
+		u.S.Fault("up_" + a.Kind)
+		u.S.After(a.Delay, lab, func() {
+			if u.Wedged || c.PeerDone() {
+				return
+			}
+			b := a.Junk
+			if a.Kind == "corrupt_reply" {
+				var how string
+				b, how = Corrupt(u.Codec.Name(), mk(), u.S.Ch)
+				u.S.Logf("upstream %s c%d sends corrupted reply (%s)", u.Host, c.ID, how)
+			}
+			c.Send(b)
+			u.Tainted = true
+			u.Wedged = true // whatever state the byte stream is in now, a sane peer would not continue
+		})
 	default:
 		panic("unknown action " + a.Kind)
 	}
